@@ -193,7 +193,8 @@ class Run:
                        r'Deadlock reached|Assumption .* is false|The postcondition .* violated)', p.stdout)
         if m2 and not res.invariant_violated:
             res.invariant_violated = m2.group(1)
-        res.ok = (p.returncode == 0)
+        # TLC can print an evaluation error (e.g. a StackOverflowError in the main thread) and still exit 0
+        res.ok = (p.returncode == 0) and not re.search(r'^Error: ', p.stdout, re.M)
         if coverage:
             for mm in re.finditer(r'^<(\w+) line \d+, col \d+ to line \d+, col \d+ of module (\w+)>: (\d+):(\d+)',
                                   p.stdout, re.M):
